@@ -109,6 +109,18 @@ fn contains_continue_expr(e: &Expr) -> bool {
     v.0
 }
 
+fn type_has_infer(t: &Type) -> bool {
+    struct V(bool);
+    impl<'ast> syn::visit::Visit<'ast> for V {
+        fn visit_type_infer(&mut self, _: &'ast syn::TypeInfer) {
+            self.0 = true;
+        }
+    }
+    let mut v = V(false);
+    syn::visit::Visit::visit_type(&mut v, t);
+    v.0
+}
+
 fn base_k<'a, 'b>(k: &'b K<'a>) -> &'b K<'a> {
     match k {
         K::Then(_, _, k2) => base_k(k2),
@@ -183,6 +195,18 @@ impl<'u> Tr<'u> {
     fn log_only_expr(&self, e: &Expr) -> bool {
         match e {
             Expr::Macro(m) => self.macro_ignorable(&m.mac),
+            // the update of a captured counter the request declares as dropped
+            Expr::Assign(_) | Expr::Binary(_) => {
+                let target = match e {
+                    Expr::Assign(a) => Some(&*a.left),
+                    Expr::Binary(b) if matches!(b.op, BinOp::AddAssign(_)) => Some(&*b.left),
+                    _ => None,
+                };
+                match target {
+                    Some(Expr::Path(p)) => p.path.get_ident().map(|i| self.req_ignore_assign.iter().any(|n| i == n)).unwrap_or(false),
+                    _ => false,
+                }
+            }
             Expr::Block(b) if b.label.is_none() => b.block.stmts.iter().all(|s| self.log_only_stmt(s)),
             Expr::If(i) => {
                 i.then_branch.stmts.iter().all(|s| self.log_only_stmt(s))
@@ -265,6 +289,8 @@ impl<'u> Tr<'u> {
                     None => return self.err(sp, "`let` without a value"),
                 };
                 let hint = match annot {
+                    // (`Vec<_>`: nothing to learn from the annotation)
+                    Some(t) if type_has_infer(t) => None,
                     Some(t) => Some(self.ty(t, env.self_ty.as_deref())?),
                     None => None,
                 };
